@@ -38,20 +38,20 @@ def run(tier):
     # (ii) loaders
     if tier == "quick":
         caps = [[1, 1, 1], [2, 1, 2], [3, 2, 3]]
-        fams = [("unit", 3), ("avail", 3)]
+        fams = [("unit", 3), ("avail", 3), ("members", 3)]
         ids, lens = 2, [1, 2]
     else:
         caps = [[1, 1, 1], [2, 1, 2], [3, 2, 3], [1, 2, 3], [1, 1, 3], [2, 2, 1]]
-        fams = [("unit", 4), ("avail", 4)]
+        fams = [("unit", 4), ("avail", 4), ("members", 4)]
         ids, lens = 2, [0, 1, 2]
     for fam, n in fams:
         slices = []
-        for cp in caps:
+        for cp in (caps[:2] if fam == "members" and tier == "quick" else caps):
             for pf in itertools.product(range(4), repeat=2):
                 if pf[0] != 0:
                     continue            # a history starts with a save (get/export on an empty loader is the n-1 case)
-                slices.append(dict(family=fam, n=n, caps=cp, ids=ids, lens=[1] if fam == "avail" and tier == "quick" else lens,
-                                   prefix=list(pf), xdom=[0, 1] if fam == "avail" else None))
+                slices.append(dict(family=fam, n=n, caps=cp, ids=ids, lens=[1] if fam != "unit" and tier == "quick" else lens,
+                                   prefix=list(pf), xdom=[0, 1] if fam != "unit" else None))
         b.add(f"{fam}: get == last save, export/restore round-trip, histories of {n} ops", M, "check_loader", slices=slices,
               pct=400 if tier == "quick" else 3000, ppt=60, twin="check_loader_reach",
               twin_slice=dict(family=fam, n=n, caps=caps[0], ids=ids, lens=lens, prefix=[0]),
